@@ -100,6 +100,9 @@ def load_known():
         return json.load(f)
 
 
+PROOF_STEP = re.compile(r"::loop\d+::(inv-init|inv-step|variant|decreases)\b")
+
+
 def fail_key(lemma, cell, f):
     return "%s|%s|%s|%s" % (lemma, cell, f["clause"], f.get("signature"))
 
@@ -302,6 +305,12 @@ def summarize(prop, tier, seed, lemmas, tasks, results, wall):
                 if hit is not None:
                     hit["_hits"] += 1
                     n_failed_known += 1
+                elif PROOF_STEP.search(f["clause"]):
+                    # a loop invariant / variant of MY proof is not re-established and no input fails natively (the probes ran):
+                    # the proof does not go through for this code -- undecided, never a violation (the counter-model of an
+                    # inductive step need not be a reachable state; a restructured loop fails here although nothing is wrong)
+                    n_und += 1
+                    undecided.append("%s/%s::%s" % (r["lemma"], r["cell"], f["clause"]))
                 else:
                     f["_nofail"] = True
                     violations.append(f)
